@@ -198,20 +198,19 @@ def differences(m, n, axis):
     return m
 
 
-def gen_diff(tier, rng):
+def gen_diff(tier, rng, zero=False):
+    """zero: ONLY the cases whose result has size 0 (n > 0 and n >= extent along the axis incl. prepend/append); otherwise none of them"""
+    extent = {None: 0, "scalar": 1, 1: 1, 2: 2}
     space = [(s, n, ax, pre, app) for s in SHAPES if s for n in range(4) for ax in [None] + list(range(-len(s), len(s)))
-             for pre in (None, "scalar", 1, 2) for app in (None, "scalar", 1, 2)]
-    for s, n, ax, pre, app in (space if tier == "thorough" else rng.sample(space, 250)):
+             for pre in (None, "scalar", 1, 2) for app in (None, "scalar", 1, 2)
+             if (0 < n >= s[-1 if ax is None else ax] + extent[pre] + extent[app]) == zero]
+    for s, n, ax, pre, app in (space if tier == "thorough" else rng.sample(space, 80 if zero else 250)):
         lay = rng.choice(LAYOUTS)
         ends = [None if e is None else other(rng, () if e == "scalar" else put(s, (-1 if ax is None else ax) % len(s), e)) for e in (pre, app)]
         kw = dict({} if n == 1 and rng.random() < 0.5 else {"n": n}, **({} if ax is None else {"axis": ax}))
         yield {"a": rpoly(rng, s, lay), "layout": lay, "kw": kw, "prepend": ends[0], "append": ends[1], "via": rng.choice(["numpoly", "numpy"])}
 
 
-@check("C10", "diff.differences", gen_diff, functions=("numpoly.diff",),
-       note=BOUNDS + "n in 0..3 (results of size 0 included), every axis (and omitted = last), prepend/append each omitted, a 0-d operand, or an "
-            "array with extent 1 or 2 along the axis; prepend/append polynomials over other indeterminates, plain int arrays or numbers; "
-            "spellings numpoly/numpy; thorough tier exhaustive over shape x n x axis x prepend/append kinds")
 def diff(inp):
     import numpoly
     install_poison()
@@ -224,23 +223,31 @@ def diff(inp):
     parts = {"a": ms[0]}
     for key, x, m in zip([k for k in ("prepend", "append") if inp[k] is not None], xs[1:], ms[1:]):
         kw[key], parts[key] = x, numpy.broadcast_to(m, put(ms[0].shape, axis, 1)) if not m.ndim else m
-    whole = numpy.concatenate([parts[k] for k in ("prepend", "a", "append") if k in parts], axis=axis)
+    n = inp["kw"].get("n", 1)       # numpy returns the array itself for n=0, before looking at prepend/append
+    whole = numpy.concatenate([parts[k] for k in ("prepend", "a", "append") if k in parts], axis=axis) if n else ms[0]
     r = attempt((numpoly if inp["via"] == "numpoly" else numpy).diff, xs[0], **kw)
-    return (agree(r, differences(whole, inp["kw"].get("n", 1), axis), f"diff with {inp['kw']}")
+    return (agree(r, differences(whole, n, axis), f"diff with {inp['kw']}")
             or next((e for e in (unchanged(b, x, f"operand {i}") for i, (b, x) in enumerate(zip(before, xs))) if e), None))
 
 
-def gen_ediff(tier, rng):
-    for _ in range(count(tier, 120, 1500)):
+DIFF = ("every axis (and omitted = last), prepend/append each omitted, a 0-d operand, or an array with extent 1 or 2 along the axis; prepend/append "
+        "polynomials over other indeterminates, plain int arrays or numbers; spellings numpoly/numpy; thorough tier exhaustive over shape x n x "
+        "axis x prepend/append kinds; ")
+check("C10", "diff.differences", gen_diff, functions=("numpoly.diff",),
+      note=BOUNDS + DIFF + "n in 0..3 (n=0 returns the array itself, like numpy) as long as the result is non-empty")(diff)
+check("C10", "diff.size0", lambda tier, rng: gen_diff(tier, rng, True), functions=("numpoly.diff",),
+      note=BOUNDS + DIFF + "ONLY n in 1..3 at least as large as the extent along the axis (prepend/append included): result of size 0")(diff)
+
+
+def gen_ediff(tier, rng, zero=False):
+    shapes = [s for s in SHAPES if (numpy.prod(s, dtype=int) == 1) == zero]       # zero: size-1 arrays have no consecutive differences
+    for _ in range(count(tier, 30, 300) if zero else count(tier, 120, 1500)):
         lay = rng.choice(LAYOUTS)
-        a = rpoly(rng, rng.choice(SHAPES), lay)       # numpy wants to_end/to_begin castable to the array's dtype: same dtype, or plain ints
+        a = rpoly(rng, rng.choice(shapes), lay)       # numpy wants to_end/to_begin castable to the array's dtype: same dtype, or plain ints
         ends = [None if rng.random() < 0.5 else other(rng, rng.choice([(), (1,), (2,), (2, 2)]), dtype=a["poly"]["dtype"]) for _ in range(2)]
         yield {"a": a, "layout": lay, "to_end": ends[0], "to_begin": ends[1], "via": rng.choice(["numpoly", "numpy"])}
 
 
-@check("C10", "ediff1d.differences", gen_ediff, functions=("numpoly.ediff1d",),
-       note=BOUNDS + "consecutive differences of the flattened array (size 1 gives none); to_end/to_begin each omitted, 0-d, 1-d or 2-d, "
-            "polynomials (same coefficient dtype) over other indeterminates, plain int arrays or numbers; spellings numpoly/numpy; sampled")
 def ediff1d(inp):
     import numpoly
     install_poison()
@@ -254,6 +261,14 @@ def ediff1d(inp):
     r = attempt((numpoly if inp["via"] == "numpoly" else numpy).ediff1d, xs[0], **dict(zip(keys, xs[1:])))
     return (agree(r, want, "ediff1d")
             or next((e for e in (unchanged(b, x, f"operand {i}") for i, (b, x) in enumerate(zip(before, xs))) if e), None))
+
+
+EDIFF = ("to_end/to_begin each omitted, 0-d, 1-d or 2-d, polynomials (same coefficient dtype) over other indeterminates, plain int arrays or "
+         "numbers; spellings numpoly/numpy; sampled; ")
+check("C10", "ediff1d.differences", gen_ediff, functions=("numpoly.ediff1d",),
+      note=BOUNDS + EDIFF + "consecutive differences of the flattened array of size >= 2")(ediff1d)
+check("C10", "ediff1d.size0", lambda tier, rng: gen_ediff(tier, rng, True), functions=("numpoly.ediff1d",),
+      note=BOUNDS + EDIFF + "ONLY arrays of size 1 (shapes (), (1,), (1,1), (1,1,1)): no difference, result is to_begin + to_end, possibly empty")(ediff1d)
 
 
 # ------------------------------------------------------------------ inner / outer / matmul / det
@@ -288,12 +303,13 @@ def gen_linalg(fn):
     def gen(tier, rng):
         space = {"inner": [((n,), (n,)) for n in (1, 2, 3) for _ in range(12)],
                  "outer": [(s1, s2) for s1 in SHAPES[:13] for s2 in SHAPES[:13]],
-                 "matmul": [(s1, s2) for s1 in SHAPES[1:] for s2 in SHAPES[1:] if accepts(numpy.matmul, s1, s2)],
+                 "matmul": [(s1, s2) for s1 in SHAPES[4:] for s2 in SHAPES[4:] if accepts(numpy.matmul, s1, s2)],
+                 "matmul.vector_operand": [(s1, s2) for s1 in SHAPES[1:] for s2 in SHAPES[1:] if min(len(s1), len(s2)) == 1 and accepts(numpy.matmul, s1, s2)],
                  "det": [(s + (n, n), None) for n in (1, 2, 3) for s in [(), (1,), (2,), (3,)] for _ in range(6)]}[fn]
-        for s1, s2 in (space if tier == "thorough" else rng.sample(space, min(len(space), 120 if fn == "matmul" else 40))):
+        for s1, s2 in (space if tier == "thorough" else rng.sample(space, min(len(space), 80 if fn.startswith("matmul") else 40))):
             lay, small = [rng.choice(LAYOUTS), rng.choice(LAYOUTS)], {"maxterms": 2, "maxexp": 2}
             ops = [rpoly(rng, s1, lay[0], names=rng.choice(NAMESETS), **small)] + ([] if s2 is None else [other(rng, s2, lay[1], **small)])
-            yield {"fn": fn, "ops": ops, "layouts": lay, "via": rng.choice(["numpoly", "numpy"] + ["operator"] * (fn == "matmul"))}
+            yield {"fn": fn.split(".")[0], "ops": ops, "layouts": lay, "via": rng.choice(["numpoly", "numpy"] + ["operator"] * fn.startswith("matmul"))}
     return gen
 
 
@@ -317,9 +333,10 @@ def linalg(inp):
 
 
 LINALG = {"inner": "of two vectors of equal length 1..3", "outer": "of operands of 0-2 dimensions (flattened)",
-          "matmul": "of every shape pair numpy accepts (1-d x 1-d, 1-d x n-d, n-d x 1-d, stacked and broadcast 3-d), also spelled `@`",
+          "matmul": "of every pair of 2-d / 3-d shapes numpy accepts (stacked and broadcast), also spelled `@`",
+          "matmul.vector_operand": "ONLY with a 1-d operand (1-d x 1-d, 1-d x n-d, n-d x 1-d) of every shape pair numpy accepts, also spelled `@`",
           "det": "of 1x1, 2x2, 3x3 matrices and stacks of 1-3 of them against the Leibniz formula, also spelled numpy.linalg.det"}
 for _fn, _what in LINALG.items():
-    check("C10", f"{_fn}.definition", gen_linalg(_fn), functions=(f"numpoly.{_fn}",),
+    check("C10", _fn if "." in _fn else f"{_fn}.definition", gen_linalg(_fn), functions=(f"numpoly.{_fn.split('.')[0]}",),
           note=BOUNDS + f"<=2 terms, exponents <=2; {_fn} {_what}; operands over different indeterminates, second operand sometimes a plain int "
           f"array; spellings numpoly/numpy; thorough tier exhaustive over shapes")(linalg)
